@@ -6,6 +6,24 @@ pub mod fmt {
     impl<'a> Disp for &'a str { open spec fn disp(&self) -> Seq<char> { self@ } }
     impl Disp for String { open spec fn disp(&self) -> Seq<char> { self@ } }
     impl<'a> Disp for &'a String { open spec fn disp(&self) -> Seq<char> { self@ } }
+    // every other displayable value the crate formats: SOME text, a function of the value (nothing
+    // more is assumed) - so that a `format!` that moves out of an error-context closure into a
+    // helper function still extracts
+    impl Disp for crate::shims::std::path::Display { uninterp spec fn disp(&self) -> Seq<char>; }
+    impl Disp for crate::shims::std::io::Error { uninterp spec fn disp(&self) -> Seq<char>; }
+    impl Disp for crate::shims::ssri::Integrity { uninterp spec fn disp(&self) -> Seq<char>; }
+    impl Disp for crate::shims::ssri::Algorithm { uninterp spec fn disp(&self) -> Seq<char>; }
+    impl Disp for bool { uninterp spec fn disp(&self) -> Seq<char>; }
+    impl Disp for char { uninterp spec fn disp(&self) -> Seq<char>; }
+    impl Disp for u8 { uninterp spec fn disp(&self) -> Seq<char>; }
+    impl Disp for u16 { uninterp spec fn disp(&self) -> Seq<char>; }
+    impl Disp for u32 { uninterp spec fn disp(&self) -> Seq<char>; }
+    impl Disp for u64 { uninterp spec fn disp(&self) -> Seq<char>; }
+    impl Disp for u128 { uninterp spec fn disp(&self) -> Seq<char>; }
+    impl Disp for usize { uninterp spec fn disp(&self) -> Seq<char>; }
+    impl Disp for i32 { uninterp spec fn disp(&self) -> Seq<char>; }
+    impl Disp for i64 { uninterp spec fn disp(&self) -> Seq<char>; }
+    impl Disp for isize { uninterp spec fn disp(&self) -> Seq<char>; }
     #[verifier::external_body]
     pub struct Fmt { s: String }
     impl View for Fmt { type V = Seq<char>; uninterp spec fn view(&self) -> Seq<char>; }
